@@ -28,6 +28,8 @@ type datadogCFRequestDec struct {
 func (d *datadogCFRequestDec) Decode() error {
 	scanner := bufio.NewScanner(d.ctx.bodyReader)
 	scanner.Split(bufio.ScanLines)
+	// a log line may be longer than bufio's default 64 KiB token limit
+	scanner.Buffer(make([]byte, 0, 64*1024), 16*1024*1024)
 
 	d.DDSource = d.ctx.ctxMap["ddsource"]
 	for scanner.Scan() {
@@ -45,6 +47,10 @@ func (d *datadogCFRequestDec) Decode() error {
 		if err != nil {
 			return err
 		}
+	}
+	// a read error or an over-long line must not end the request as if the body were complete
+	if err := scanner.Err(); err != nil {
+		return customErrors.NewUnmarshalError(err)
 	}
 	return nil
 }
